@@ -9,6 +9,11 @@ package main
 //@ func cmd/plenctag.plencValue
 //@   safety C20
 //@   assigns[C20] H+ B+
+//@   # the index reported for a field is read from the field's own tag, whatever the tag looks like: the tag is always
+//@   # unquoted and parsed, and when it holds a plenc entry other than "-" the result is what strconv.Atoi makes of it
+//@   ensures[C20] called_extractTags && call_extractTags_arg0 == tag
+//@   ensures[C20] called_Atoi ==> r0 == call_Atoi_r0 && r1 == call_Atoi_r1
+//@   ensures[C20] call_extractTags_r1 == nil && call_extractTags_r0 != nil && @github.com/fatih/structtag.*Tags.Get(call_extractTags_r0, "plenc").r1 == nil && !called_Atoi ==> @github.com/fatih/structtag.*Tags.Get(call_extractTags_r0, "plenc").r0.Name == "-"
 
 //@ func cmd/plenctag.extractTags
 //@   safety C20
